@@ -1,30 +1,42 @@
 (* C01/Corr.v -- comparator evaluated by vm_compute on generated case files.
-   codes: 1  = observed output differs from the model (PV.C01.Model.getitem / part_bounds / memmap_rows)
+   codes: 1  = observed output differs from the model (PV.C01.Model.getitem / part_bounds / memmap_rows;
+               outside the statement's regime: PV.C01.ModelE.getitem_e, exception class included)
           21 = C01_slice / C01_int / C01_list / C01_cols: the observed block is not what NumPy returns
-               on the concatenated recording (rows first, then columns)
+               on the concatenated recording (rows first, then columns); for a direct _get_subitems
+               call: the sub-items, read part by part, do not give those rows
           22 = dtype of the returned block differs from the sample dtype
           23 = C01_bounds / C01_memmap_rows: shape, n_samples or n_channels are not those of the
                concatenated array
           24 = reader.dtype differs from the sample dtype
           25 = duration differs from n_samples / sample_rate (one binary64 division)
+          26 = C01_duration: duration is not within one rounding of the rational n_samples / sample_rate
           3  = input outside the stated regime (harness bug)
    The test recording is the n x c matrix with entry (r, j) = r*c + j, split into parts of the given
-   sizes, so a returned block identifies exactly which rows and columns were read. *)
+   sizes, so a returned block identifies exactly which rows and columns were read.
+   InGet / InAttrs / InFlatAttrs / InSub are judged against the statement (codes 21-26); InAny / InCtor are
+   inputs OUTSIDE the statement (out-of-range or unordered indices, empty selections, steps, odd
+   constructor arguments): only code 1, so that a change of behaviour there is seen. *)
 From Coq Require Import ZArith List Lia Bool Floats Uint63.
-From PV Require Export Base.PySlice Base.NpSearch C01.Model C01.Spec.
-From PV Require Import C16.Model.
+From PV Require Export Base.PySlice Base.NpSearch Base.Tok C01.Model C01.Spec C01.ModelE.
+From PV Require Import C16.Model Base.FloatTok.
 Import ListNotations.
 Open Scope Z_scope.
 
 Inductive input :=
 | InGet (sizes : list Z) (c : Z) (dt : Z) (it : item) (cols : option colsel)
-| InAttrs (sizes : list Z) (c : Z) (dt : Z) (cs : Z) (rate : float)
-| InFlatAttrs (fsizes : list Z) (offset isz c dt cs : Z) (rate : float).
+| InAttrs (sizes : list Z) (c : Z) (dt : Z) (cs : Z) (rate : float) (ratet : tok)
+| InFlatAttrs (fsizes : list Z) (offset isz c dt cs : Z) (rate : float) (ratet : tok)
+| InAny (sizes : list Z) (c : Z) (dt : Z) (it : item) (cols : option colsel)
+| InSub (sizes : list Z) (it : item)
+| InCtor (fsizes : list Z) (offset isz c cs : Z).
 
 Inductive observed :=
 | ObsRows (dt : Z) (rows : list (list Z))
 | ObsDerived (dt : Z) (rows : list (list Z))     (* a reader came back; rows = that reader read in full *)
-| ObsAttrs (shape0 shape1 nsamples nchannels dt : Z) (dur : float) (pb : list Z)
+| ObsAttrs (shape0 shape1 nsamples nchannels dt : Z) (dur : float) (durt : tok) (pb : list Z)
+| ObsSubs (subs : list subitem)                  (* what _get_subitems returned *)
+| ObsBounds (pb : list Z)                        (* the constructor succeeded: part_bounds *)
+| ObsRaise (k : Z)                               (* exception class (exn_code), 0 = another class *)
 | ObsOther                                       (* not a 2-D integer-valued block *)
 | ObsCrash.
 
@@ -32,7 +44,9 @@ Record case := { cid : Z; cin : input; cobs : observed }.
 
 Definition flag (code : Z) (ok : bool) : list Z := if ok then [] else [code].
 
-Definition sizes_ok (sizes : list Z) : bool := (1 <=? zlen sizes) && forallb (fun s => 1 <=? s) sizes.
+(* >= 1 file, no negative size, >= 1 row in all (a file may hold 0 rows: header / trailing bytes only) *)
+Definition sizes_ok (sizes : list Z) : bool :=
+  (1 <=? zlen sizes) && forallb (fun s => 0 <=? s) sizes && (1 <=? zsum sizes).
 
 Definition model_rows_eqb (m : option (@result Z)) (rows : list (list Z)) : bool :=
   match m with Some (RRows r) => zmat_eqb r rows | _ => false end.
@@ -42,15 +56,31 @@ Definition model_derived (m : option (@result Z)) : bool :=
 Definition fdiv (n : Z) (rate : float) : float :=
   PrimFloat.div (PrimFloat.of_uint63 (Uint63.of_Z n)) rate.
 
-Definition check_attrs (sizes : list Z) (c dt cs : Z) (rate : float) (o : observed) : list Z :=
+(* the two encodings of one binary64 number agree *)
+Definition tok_is (f : float) (t : tok) : bool := tok_eqb (tok_of_float f) (tnorm t).
+
+Definition check_attrs (sizes : list Z) (c dt cs : Z) (rate : float) (ratet : tok) (o : observed) : list Z :=
   match o with
-  | ObsAttrs s0 s1 ns nc dto dur pb =>
+  | ObsAttrs s0 s1 ns nc dto dur durt pb =>
+      if negb (tok_is rate ratet && tok_is dur durt) then [3] else
       flag 1 (zlist_eqb pb (part_bounds sizes) &&
               match get_chunk_bounds sizes cs with Some b => last b 0 =? ns | None => false end) ++
       flag 23 (attrs_spec_b sizes c s0 s1 ns nc) ++
       flag 24 (dto =? dt) ++
-      flag 25 (PrimFloat.eqb dur (fdiv (zsum sizes) rate))
-  | _ => [1; 23; 24; 25]
+      flag 25 (PrimFloat.eqb dur (fdiv (zsum sizes) rate)) ++
+      flag 26 (duration_spec_b (zsum sizes) ratet durt)
+  | _ => [1; 23; 24; 25; 26]
+  end.
+
+Definition is_ok {X} (r : res X) : bool := match r with Ok _ => true | Err _ => false end.
+
+(* outside the statement: the model with exception classes against the observation *)
+Definition any_eqb (m : res (@result Z)) (o : observed) : bool :=
+  match m, o with
+  | Ok (RRows r), ObsRows _ rows => zmat_eqb r rows
+  | Ok (RDerived _), ObsDerived _ _ => true
+  | Err e, ObsRaise k => exn_code e =? k
+  | _, _ => false
   end.
 
 Definition check (c : case) : list Z :=
@@ -73,16 +103,45 @@ Definition check (c : case) : list Z :=
           flag 22 (dto =? dt)
       | _ => [1; 21]
       end
-  | InAttrs sizes nc dt cs rate, o =>
+  | InAttrs sizes nc dt cs rate ratet, o =>
       if negb (sizes_ok sizes && (1 <=? nc) && (1 <=? cs)) then [3] else
-      check_attrs sizes nc dt cs rate o
-  | InFlatAttrs fsizes offset isz nc dt cs rate, o =>
+      check_attrs sizes nc dt cs rate ratet o
+  | InFlatAttrs fsizes offset isz nc dt cs rate ratet, o =>
       match mapM (fun f => memmap_rows f offset isz nc) fsizes with
       | None => [3]
       | Some sizes =>
-          if negb (sizes_ok sizes && (1 <=? nc) && (1 <=? cs) && (0 <=? offset) && (1 <=? isz)) then [3] else
-          check_attrs sizes nc dt cs rate o
+          if negb (sizes_ok sizes && (1 <=? nc) && (1 <=? cs) && (0 <=? offset) && (1 <=? isz) &&
+                   forallb (fun f => 1 <=? f) fsizes) then [3] else
+          check_attrs sizes nc dt cs rate ratet o
       end
+  | InAny sizes nc dt it cols, o =>
+      let parts := mk_parts nc 0 sizes in
+      (* a 0-row block has no column count in this model: a column selector that NumPy rejects is
+         not asked for there *)
+      if negb ((1 <=? zlen sizes) && forallb (fun s => 0 <=? s) sizes && (1 <=? nc) &&
+               match getitem_rows_e parts it, cols with
+               | Ok [], Some cs => is_ok (col_indices_e nc cs)
+               | _, _ => true
+               end) then [3] else
+      flag 1 (any_eqb (getitem_e parts it cols) o)
+  | InSub sizes it, o =>
+      let parts := mk_parts 1 0 sizes in
+      if negb (sizes_ok sizes && valid_item_b (zsum sizes) it) then [3] else
+      match o with
+      | ObsSubs subs =>
+          flag 21 (match mapM (get_part parts) subs, np_index (concat parts) it with
+                   | Some (b :: bs), Some rows => zmat_eqb (concat (b :: bs)) rows
+                   | _, _ => false
+                   end)
+      | _ => [1; 21]
+      end
+  | InCtor fsizes offset isz nc cs, o =>
+      if negb ((1 <=? zlen fsizes) && forallb (fun f => 0 <=? f) fsizes && (0 <=? offset) && (1 <=? isz)) then [3] else
+      flag 1 (match flat_ctor_e fsizes offset isz nc cs, o with
+              | Ok pb, ObsBounds pb' => zlist_eqb pb pb'
+              | Err e, ObsRaise k => exn_code e =? k
+              | _, _ => false
+              end)
   end.
 
 Definition run (cases : list case) : list (Z * Z) :=
@@ -99,3 +158,31 @@ Proof. vm_compute. reflexivity. Qed.
 Example corr_live_regime :
   check {| cid := 0; cin := InGet [1; 3; 2] 2 1 (ISlice (Some 1) (Some 0) None) None; cobs := ObsRows 1 [] |} = [3].
 Proof. vm_compute. reflexivity. Qed.
+(* a file of 0 rows between two others *)
+Example corr_live_empty_part :
+  check {| cid := 0; cin := InGet [2; 0; 1] 1 1 (ISlice (Some 1) None None) None; cobs := ObsRows 1 [[1]; [2]] |} = [] /\
+  check {| cid := 0; cin := InGet [2; 0; 1] 1 1 (IInt 2) None; cobs := ObsRows 1 [[1]] |} = [1; 21].
+Proof. vm_compute. split; reflexivity. Qed.
+(* outside the statement: reader[6] on 6 rows raises IndexError (1), reader[-7] wraps to row 5, reader[1:1] at a
+   file boundary raises ValueError (2); a different exception class is a model mismatch *)
+Example corr_live_any :
+  check {| cid := 0; cin := InAny [1; 3; 2] 2 1 (IInt 6) None; cobs := ObsRaise 1 |} = [] /\
+  check {| cid := 0; cin := InAny [1; 3; 2] 2 1 (IInt 6) None; cobs := ObsRaise 2 |} = [1] /\
+  check {| cid := 0; cin := InAny [1; 3; 2] 2 1 (IInt (-7)) None; cobs := ObsRows 1 [[10; 11]] |} = [] /\
+  check {| cid := 0; cin := InAny [1; 3; 2] 2 1 (ISlice (Some 1) (Some 1) None) None; cobs := ObsRaise 2 |} = [] /\
+  check {| cid := 0; cin := InAny [1; 3; 2] 2 1 (ISlice (Some 2) (Some 2) None) None; cobs := ObsRows 1 [] |} = [].
+Proof. vm_compute. repeat split; reflexivity. Qed.
+(* _get_subitems([0, 1, 4, 6], slice(1, 5)): the two sub-slices it returns, and a wrong answer *)
+Example corr_live_sub :
+  check {| cid := 0; cin := InSub [1; 3; 2] (ISlice (Some 1) (Some 5) None);
+           cobs := ObsSubs [mksub 1 (ISlice (Some 0) (Some 3) (Some 1)); mksub 2 (ISlice (Some 0) (Some 1) (Some 1))] |} = [] /\
+  check {| cid := 0; cin := InSub [1; 3; 2] (ISlice (Some 1) (Some 5) None);
+           cobs := ObsSubs [mksub 1 (ISlice (Some 0) (Some 3) (Some 1))] |} = [21].
+Proof. vm_compute. split; reflexivity. Qed.
+(* duration 2 rows / 3.0 Hz: the correctly rounded quotient passes 25 and 26, the next float fails both *)
+Example corr_live_duration :
+  check {| cid := 0; cin := InAttrs [2] 1 1 1800 0x1.8p+1%float (TNum 3 0);
+           cobs := ObsAttrs 2 1 2 1 1 0x1.5555555555555p-1%float (TNum 6004799503160661 (-53)) [0; 2] |} = [] /\
+  check {| cid := 0; cin := InAttrs [2] 1 1 1800 0x1.8p+1%float (TNum 3 0);
+           cobs := ObsAttrs 2 1 2 1 1 0x1.5555555555557p-1%float (TNum 6004799503160663 (-53)) [0; 2] |} = [25; 26].
+Proof. vm_compute. split; reflexivity. Qed.
